@@ -83,6 +83,12 @@ func emitPP(id string, content []byte, level, pf, lit string, banner bool, ngor 
 	filt, fe, mat, me := "", 0, "", 0
 	if lit != "" {
 		q := regexp.QuoteMeta(lit)
+		// "X$" / "X\n$": expressions that look at the END of the header (which ends with a newline)
+		if strings.HasPrefix(lit, "\x01") {
+			q = regexp.QuoteMeta(lit[1:]) + "$"
+		} else if strings.HasPrefix(lit, "\x02") {
+			q = regexp.QuoteMeta(lit[1:]) + "\n$"
+		}
 		filt, fe = runPP(content, append(append([]string{}, base...), "-no-color", "-f", q), banner)
 		mat, me = runPP(content, append(append([]string{}, base...), "-no-color", "-m", q), banner)
 	}
@@ -172,6 +178,12 @@ func opPP(r *rand.Rand, n int, tier string) {
 		lit := ""
 		if r.Intn(3) != 0 {
 			lit = lits[r.Intn(len(lits))]
+			switch r.Intn(6) {
+			case 0:
+				lit = "\x01" + lit
+			case 1:
+				lit = "\x02" + lit
+			}
 		}
 		level := "2"
 		if r.Intn(3) == 0 {
